@@ -147,6 +147,55 @@ fn run_huge_zst(c: usize, r: usize, ctx: &mut Ctx) {
         let mut cols = vec![0, wc - 1, wc / 2];
         cols.sort_unstable();
         cols.dedup();
+        for &x in &cols {
+            // [i] on the fresh column iterator: every i < len must be accepted (also beyond isize::MAX), i >= len rejected
+            let mut is: Vec<usize> = vec![0, 1, wr / 2, wr - 1, wr, wr.wrapping_add(1), usize::MAX, usize::MAX / 2, usize::MAX / 2 + 1, (usize::MAX / 2) / c.max(1), ((usize::MAX / 2) / c.max(1)).wrapping_add(1), usize::MAX / c.max(1), (usize::MAX / c.max(1)).wrapping_add(1)];
+            is.sort_unstable();
+            is.dedup();
+            for i in is {
+                for kind in 0..4u8 {
+                    if kind < 2 && (s, e) != ((0, 0), (c, r)) {
+                        continue;
+                    }
+                    let name = ["TooDee::col", "TooDee::col_mut", "view(..).col", "view_mut(..).col_mut"][kind as usize];
+                    ctx.case(
+                        || format!("TooDee<()> {}x{} window {:?}-{:?} {}({})[{}]", c, r, s, e, name, x, i),
+                        |cs| {
+                            let valid = i < wr;
+                            if valid {
+                                cs.nontrivial((c, r, s, e, x, kind, i));
+                            }
+                            cs.outcome(if valid { "huge-zst-index" } else { "huge-zst-index-rejected" });
+                            let mut t = array(c, r);
+                            let res = match kind {
+                                0 => crate::engine::guarded(|| {
+                                    let _ = &t.col(x)[i];
+                                }),
+                                1 => crate::engine::guarded(|| {
+                                    let mut cm = t.col_mut(x);
+                                    let _ = &cm[i];
+                                    cm[i] = ();
+                                }),
+                                2 => crate::engine::guarded(|| {
+                                    let _ = &t.view(s, e).col(x)[i];
+                                }),
+                                _ => crate::engine::guarded(|| {
+                                    let mut v = t.view_mut(s, e);
+                                    let mut cm = v.col_mut(x);
+                                    let _ = &cm[i];
+                                    cm[i] = ();
+                                }),
+                            };
+                            match (valid, res) {
+                                (true, Err(m)) => cs.fail("col-index:panics-in-range", format!("{}({})[{}] with {} cells panicked: {}", name, x, i, wr, m)),
+                                (false, Ok(())) => cs.fail("col-index:no-panic-out-of-range", format!("{}({})[{}] with {} cells returned", name, x, i, wr)),
+                                _ => {}
+                            }
+                        },
+                    );
+                }
+            }
+        }
         for x in cols {
             for seq in sequences(wr, &[c, wc]) {
                 for kind in 0..4u8 {
